@@ -108,7 +108,10 @@ type c16MRun struct {
 	probing     map[pathID]uint64
 	maxRPT      uint64
 	fuzzyTokens bool // conflicting contents were accepted: which token belongs to a seq is ambiguous
-	dupOfProbe  bool // a NEW_CONNECTION_ID for a sequence number in use on a probing path was delivered
+	// input classes of the two known weaknesses around highestProbingID (see add): per sequence number
+	everProbed   map[uint64]bool // handed to a probing path at some time
+	dupProbed    map[uint64]bool // a duplicate NEW_CONNECTION_ID arrived while/after the seq was bound to a probing path
+	dupActiveLow map[uint64]bool // a duplicate arrived while the seq was the active one and a higher seq was bound to a path
 	errored     bool
 	closed      bool
 	outcome     string
@@ -138,6 +141,8 @@ func newC16MRun(adv int, specDriven bool, cidLen int) *c16MRun {
 		cidSeq:   map[protocol.ConnectionID]uint64{},
 		tokSeq:   map[protocol.StatelessResetToken]uint64{},
 		probing:  map[pathID]uint64{},
+
+		everProbed: map[uint64]bool{}, dupProbed: map[uint64]bool{}, dupActiveLow: map[uint64]bool{},
 	}
 	init := c16CID(0, 0, cidLen)
 	r.known[0] = c16Frame{}
@@ -188,11 +193,42 @@ func (r *c16MRun) unretired() (all int, onPaths int) {
 	return
 }
 
-func (r *c16MRun) suffix() string {
-	if r.dupOfProbe {
-		return "|duplicate-of-path-probing-id"
+// suffix gives the input class for a violation that concerns sequence number s.
+func (r *c16MRun) suffix(s uint64) string {
+	switch {
+	case r.dupProbed[s]:
+		return "|duplicate-ncid-for-path-probing-id"
+	case r.dupActiveLow[s]:
+		return "|duplicate-ncid-for-active-id-below-probing-id"
+	}
+	// not about a sequence number that was hit itself: the history is polluted if either class occurred
+	// before (two thirds of the histories are generated without them, see NoDupInUse)
+	return r.anySuffix()
+}
+
+func (r *c16MRun) anySuffix() string {
+	if len(r.dupProbed) > 0 {
+		return "|duplicate-ncid-for-path-probing-id"
+	}
+	if len(r.dupActiveLow) > 0 {
+		return "|duplicate-ncid-for-active-id-below-probing-id"
 	}
 	return ""
+}
+
+// dupInUse: would delivering a (duplicate) frame for seq hit one of the two input classes?
+func (r *c16MRun) dupInUse(seq uint64) bool {
+	if r.everProbed[seq] {
+		return true
+	}
+	if _, ok := r.known[seq]; ok && (!r.activeKnown || r.active == seq) {
+		for s := range r.everProbed {
+			if s > seq {
+				return true
+			}
+		}
+	}
+	return false
 }
 
 // checkTokens: stateless-reset tokens registered exactly for the peer IDs in use.
@@ -203,12 +239,12 @@ func (r *c16MRun) checkTokens(where string) {
 	// (a) registration equals the manager's own notion of "active" tokens
 	for t := range r.reg {
 		if !r.m.IsActiveStatelessResetToken(t) {
-			r.fail("C16|connIDManager|reset-token-registered-for-id-not-in-use"+r.suffix(), "%s: token of seq %d is registered but IsActiveStatelessResetToken is false", where, r.tokSeq[t])
+			r.fail("C16|connIDManager|reset-token-registered-for-id-not-in-use"+r.suffix(r.tokSeq[t]), "%s: token of seq %d is registered but IsActiveStatelessResetToken is false", where, r.tokSeq[t])
 		}
 	}
 	for t, s := range r.tokSeq {
 		if r.m.IsActiveStatelessResetToken(t) && !r.reg[t] {
-			r.fail("C16|connIDManager|reset-token-missing-for-id-in-use"+r.suffix(), "%s: token of seq %d is active for the manager but not registered", where, s)
+			r.fail("C16|connIDManager|reset-token-missing-for-id-in-use"+r.suffix(s), "%s: token of seq %d is active for the manager but not registered", where, s)
 		}
 	}
 	// (b) registration equals the model's set of IDs in use
@@ -231,7 +267,7 @@ func (r *c16MRun) checkTokens(where string) {
 				inUse = inUse || p == s
 			}
 			if r.reported[s] > 0 && !inUse && !(r.activeKnown && r.active == s) {
-				r.fail("C16|connIDManager|reset-token-registered-for-id-not-in-use"+r.suffix(), "%s: token of retired seq %d still registered", where, s)
+				r.extraToken(where, t, "token of retired seq still registered")
 			}
 		}
 		return
@@ -242,12 +278,12 @@ func (r *c16MRun) checkTokens(where string) {
 		}
 		for t, s := range want {
 			if !r.reg[t] {
-				r.fail("C16|connIDManager|reset-token-missing-for-id-in-use"+r.suffix(), "%s: seq %d is in use (active=%d, paths=%v) but its token is not registered", where, s, r.active, r.probing)
+				r.fail("C16|connIDManager|reset-token-missing-for-id-in-use"+r.suffix(s), "%s: seq %d is in use (active=%d, paths=%v) but its token is not registered", where, s, r.active, r.probing)
 			}
 		}
 		for t := range r.reg {
 			if _, ok := want[t]; !ok {
-				r.fail("C16|connIDManager|reset-token-registered-for-id-not-in-use"+r.suffix(), "%s: token of seq %d registered, but in use are active=%d paths=%v", where, r.tokSeq[t], r.active, r.probing)
+				r.extraToken(where, t, fmt.Sprintf("in use are active=%d paths=%v", r.active, r.probing))
 			}
 		}
 		return
@@ -256,7 +292,7 @@ func (r *c16MRun) checkTokens(where string) {
 	extra := 0
 	for t, s := range want {
 		if !r.reg[t] {
-			r.fail("C16|connIDManager|reset-token-missing-for-id-in-use"+r.suffix(), "%s: seq %d is in use on a path but its token is not registered", where, s)
+			r.fail("C16|connIDManager|reset-token-missing-for-id-in-use"+r.suffix(s), "%s: seq %d is in use on a path but its token is not registered", where, s)
 		}
 	}
 	for t := range r.reg {
@@ -266,11 +302,49 @@ func (r *c16MRun) checkTokens(where string) {
 		extra++
 		s, ok := r.tokSeq[t]
 		if !ok || r.reported[s] > 0 {
-			r.fail("C16|connIDManager|reset-token-registered-for-id-not-in-use"+r.suffix(), "%s: token of retired/unknown seq %d registered", where, s)
+			r.extraToken(where, t, "token of retired/unknown seq registered")
 		}
 	}
 	if extra > 1 {
-		r.fail("C16|connIDManager|reset-token-registered-for-id-not-in-use"+r.suffix(), "%s: %d tokens registered besides those of the probing paths", where, extra)
+		r.fail("C16|connIDManager|reset-token-registered-for-id-not-in-use"+r.anySuffix(), "%s: %d tokens registered besides those of the probing paths", where, extra)
+	}
+}
+
+// extraToken reports a registered token that belongs to no ID in use.  If the sequence number was
+// reported as retired and the manager itself still calls the token active, the finding is that a
+// retired ID is in use (again), not that a token was forgotten.
+func (r *c16MRun) extraToken(where string, t protocol.StatelessResetToken, what string) {
+	s, ok := r.tokSeq[t]
+	if ok && r.reported[s] > 0 && r.m.IsActiveStatelessResetToken(t) {
+		r.fail("C16|connIDManager|retired-id-used-again"+r.suffix(s), "%s: seq %d was reported with RETIRE_CONNECTION_ID, but its reset token is registered and active for the manager: the ID is in use (%s)", where, s, what)
+		return
+	}
+	r.fail("C16|connIDManager|reset-token-registered-for-id-not-in-use"+r.suffix(s), "%s: token of seq %d registered (%s)", where, s, what)
+}
+
+// inferActive: after Add made the manager leave the active ID, the new one is identified without
+// side effects as the only sequence number whose token the manager calls active and that is not bound
+// to a probing path.
+func (r *c16MRun) inferActive() {
+	onPath := map[uint64]bool{}
+	for _, s := range r.probing {
+		onPath[s] = true
+	}
+	cands := map[uint64]bool{}
+	for t, s := range r.tokSeq {
+		if !onPath[s] && r.m.IsActiveStatelessResetToken(t) {
+			cands[s] = true
+		}
+	}
+	if len(cands) != 1 {
+		return
+	}
+	for s := range cands {
+		r.active = s
+		r.activeKnown = true
+		if r.reported[s] > 0 {
+			r.fail("C16|connIDManager|retired-id-used-again"+r.suffix(s), "seq %d was reported with RETIRE_CONNECTION_ID, but it is (still or again) the active connection ID", s)
+		}
 	}
 }
 
@@ -328,7 +402,7 @@ func (r *c16MRun) get() {
 		}
 		// an ID reported as retired must not come back into use
 		if r.reported[s] > 0 {
-			r.fail("C16|connIDManager|retired-id-used-again"+r.suffix(), "Get returned the ID of seq %d, which was already reported with RETIRE_CONNECTION_ID", s)
+			r.fail("C16|connIDManager|retired-id-used-again"+r.suffix(s), "Get returned the ID of seq %d, which was already reported with RETIRE_CONNECTION_ID", s)
 		}
 		r.active = s
 		r.activeKnown = true
@@ -373,10 +447,10 @@ func (r *c16MRun) add(f c16Frame) {
 		return
 	}
 	r.learn(f)
-	for _, s := range r.probing {
-		if s == f.Seq {
-			r.dupOfProbe = true
-		}
+	if r.everProbed[f.Seq] {
+		r.dupProbed[f.Seq] = true
+	} else if r.activeKnown && r.active == f.Seq && r.dupInUse(f.Seq) {
+		r.dupActiveLow[f.Seq] = true
 	}
 	prev, dup := r.known[f.Seq]
 	conflict := dup && f.Seq != 0 && (prev.CV != f.CV || prev.TV != f.TV)
@@ -406,12 +480,14 @@ func (r *c16MRun) add(f c16Frame) {
 			n, _ := r.unretired()
 			r.outcome = "limit-error"
 			if n <= r.adv {
-				cls := "ordinary"
-				if r.specDriven {
+				// advertised > MaxActiveConnectionIDs: the constant limit of the manager explains the error
+				// whatever else happened; otherwise only a polluted queue can (see suffix).
+				cls := "advertised<=4" + r.anySuffix()
+				if r.adv > protocol.MaxActiveConnectionIDs {
 					cls = fmt.Sprintf("advertised=%d", r.adv)
 				}
 				r.fail("C16|connIDManager|within-advertised-limit-rejected|"+cls,
-					"CONNECTION_ID_LIMIT_ERROR for %s although only %d connection IDs are unretired and the endpoint advertised active_connection_id_limit=%d", f, n, r.adv)
+					"CONNECTION_ID_LIMIT_ERROR for %s although only %d connection IDs are unretired and the endpoint advertised active_connection_id_limit=%d (spec-driven: %v)", f, n, r.adv, r.specDriven)
 			}
 			return
 		}
@@ -441,7 +517,8 @@ func (r *c16MRun) add(f c16Frame) {
 		}
 	}
 	if r.activeKnown && r.reported[r.active] > 0 {
-		r.activeKnown = false // switched inside Add; observed at the next Get
+		r.activeKnown = false // switched inside Add (Retire Prior To); observed at the next Get, or inferred
+		r.inferActive()
 	}
 	// the endpoint does not store IDs without bound
 	n, onPaths := r.unretired()
@@ -485,13 +562,14 @@ func (r *c16MRun) pathGet(id pathID) bool {
 			r.fail("C16|connIDManager|retired-without-RETIRE_CONNECTION_ID|path-probing", "path %d switched from seq %d to %d without RETIRE_CONNECTION_ID for %d", id, old, s, old)
 		}
 		if r.reported[s] > 0 {
-			r.fail("C16|connIDManager|retired-id-used-again"+r.suffix(), "GetConnIDForPath returned the ID of seq %d, which was already reported with RETIRE_CONNECTION_ID", s)
+			r.fail("C16|connIDManager|retired-id-used-again"+r.suffix(s), "GetConnIDForPath returned the ID of seq %d, which was already reported with RETIRE_CONNECTION_ID", s)
 		}
 		if s < r.maxRPT {
 			r.fail("C16|connIDManager|retire-prior-to-ignored", "GetConnIDForPath returned seq %d, below the peer's Retire Prior To %d", s, r.maxRPT)
 		}
 	}
 	r.probing[id] = s
+	r.everProbed[s] = true
 	r.checkFrames("path+")
 	r.checkTokens("path+")
 	return true
@@ -568,7 +646,7 @@ func (r *c16MRun) finish() {
 		for t := range r.reg {
 			seqs = append(seqs, r.tokSeq[t])
 		}
-		r.fail("C16|connIDManager|reset-token-left-after-close"+r.suffix(), "after Close %d stateless reset tokens are still registered (seqs %v)", len(r.reg), seqs)
+		r.fail("C16|connIDManager|reset-token-left-after-close"+r.anySuffix(), "after Close %d stateless reset tokens are still registered (seqs %v)", len(r.reg), seqs)
 	}
 }
 
@@ -601,6 +679,10 @@ type c16MParams struct {
 	PeerKind   int // 0 conformant, 1 exceeds the limit, 2 conflicting contents, 3 skips sequence numbers
 	GetAlways  bool
 	NOps       int
+	// NoDupInUse: the network does not deliver a duplicate NEW_CONNECTION_ID for a sequence number that
+	// is or was bound to a probing path, or that is active below such a number (the input classes of
+	// the two known findings), so that these histories exercise everything else to the end.
+	NoDupInUse bool
 }
 
 // c16RunManagerHistory generates and executes one history.
@@ -720,6 +802,9 @@ func c16RunManagerHistory(rng *rand.Rand, p c16MParams) (r *c16MRun, fp string, 
 				k = 0
 			}
 			f := peer.inflight[k]
+			if p.NoDupInUse && r.dupInUse(f.Seq) {
+				continue
+			}
 			if rng.IntN(5) > 0 {
 				peer.inflight = append(peer.inflight[:k], peer.inflight[k+1:]...)
 				peer.done = append(peer.done, f)
@@ -746,6 +831,9 @@ func c16RunManagerHistory(rng *rand.Rand, p c16MParams) (r *c16MRun, fp string, 
 				continue
 			}
 			f := peer.done[rng.IntN(len(peer.done))]
+			if p.NoDupInUse && r.dupInUse(f.Seq) {
+				continue
+			}
 			if p.PeerKind == 2 && rng.IntN(4) == 0 {
 				if rng.IntN(2) == 0 {
 					f.CV = 1 + rng.IntN(2)
@@ -812,8 +900,11 @@ func c16RunManagerHistory(rng *rand.Rand, p c16MParams) (r *c16MRun, fp string, 
 	cnt["mgr_path_get"] += int64(nProbe)
 	cnt["mgr_path_retire"] += int64(nUnprobe)
 	cnt["mgr_accepted_beyond_advertised_limit(lenient)"] += int64(r.lenient)
-	if r.dupOfProbe {
-		cnt["mgr_histories_with_duplicate_of_probing_id"]++
+	if len(r.dupProbed) > 0 {
+		cnt["mgr_histories_with_duplicate_ncid_for_probing_id"]++
+	}
+	if len(r.dupActiveLow) > 0 {
+		cnt["mgr_histories_with_duplicate_ncid_for_active_id_below_probing_id"]++
 	}
 	switch r.outcome {
 	case "limit-error":
@@ -838,8 +929,8 @@ func c16RunManagerHistory(rng *rand.Rand, p c16MParams) (r *c16MRun, fp string, 
 		}
 	}
 	if nDeliv > 0 {
-		fp = fmt.Sprintf("m/%d/%v/%d/%v/k%d/d%d/u%d/r%d/p%d/c%d/rot%d/pp%d/%d/%s", p.Adv, p.SpecDriven, min(p.CIDLen, 5), p.Client, p.PeerKind,
-			b(nDeliv), b(nDup), b(nReord), b(nRPT), b(nConf), b(r.rotations), b(nProbe), b(nUnprobe), r.outcome)
+		fp = fmt.Sprintf("m/%d/%v/%v/k%d/d%d/u%d/r%d/p%d/c%d/rot%d/pp%d/%d/%s", p.Adv, p.SpecDriven, p.CIDLen == 0, p.PeerKind,
+			b(nDeliv), min(nDup, 2), min(nReord, 2), min(nRPT, 2), min(nConf, 1), min(r.rotations, 2), min(nProbe, 1), min(nUnprobe, 1), r.outcome)
 	}
 	return r, fp, cnt
 }
@@ -856,6 +947,7 @@ func c16MParamsDraw(rng *rand.Rand, specDriven bool) c16MParams {
 	p.PeerKind = []int{0, 0, 0, 0, 0, 1, 1, 2, 2, 3}[rng.IntN(10)]
 	p.GetAlways = rng.IntN(2) == 0
 	p.NOps = 8 + rng.IntN(70)
+	p.NoDupInUse = rng.IntN(3) > 0
 	return p
 }
 
@@ -1371,7 +1463,7 @@ func c16RunGeneratorHistory(rng *rand.Rand, p c16GParams) (r *c16GRun, fp string
 				got := map[protocol.ConnectionID]bool{}
 				for _, c := range x.replaced[0] {
 					got[c] = true
-					if !x.set[c] {
+					if !x.set[c] && cls == "" { // a second transport may be told about IDs it never routed (harmless)
 						r.fail("C16|connIDGenerator|close-replaces-unrouted-id"+cls, "ReplaceWithClosed names %s, which is not routed to this connection", c)
 					}
 				}
@@ -1411,8 +1503,8 @@ func c16RunGeneratorHistory(rng *rand.Rand, p c16GParams) (r *c16GRun, fp string
 		}
 	}
 	if nValid+nDup+nUnissued+nSentWith > 0 || r.nIssued > 0 {
-		fp = fmt.Sprintf("g/%d/%d/%d/%v/f%v/v%d/d%d/u%d/s%d/x%d/t%d/r%v/hs%v/c%d/e%v", p.PeerLimit, p.FirstLimit, min(p.CIDLen, 5), p.Server, p.FailAt != 0,
-			b(nValid), b(nDup), nUnissued, nSentWith, b(r.nExpired), b(nTick), r.hasRunner, hs, p.CloseKind, r.errored)
+		fp = fmt.Sprintf("g/%d/%v/%v/%v/f%v/v%d/d%d/u%d/s%d/x%d/r%v/hs%v/c%d", min(p.PeerLimit, 9), p.FirstLimit != 0, p.CIDLen == 0, p.Server, p.FailAt != 0,
+			b(nValid), min(nDup, 2), nUnissued, nSentWith, min(r.nExpired, 2), r.hasRunner, hs, p.CloseKind)
 	}
 	return r, fp, cnt
 }
